@@ -713,6 +713,14 @@ pub fn hook_fixed_size(bits: bool, constraints: Vec<crate::intermediate::constra
     use crate::intermediate::types::*;
     if bits { BitString { constraints, distinguished_values: None }.fixed_size() } else { OctetString { constraints }.fixed_size() }
 }
+#[cfg(not(kani))]
+pub fn hook_link_constraints(constraints: Vec<crate::intermediate::constraints::Constraint>, tlds: &std::collections::BTreeMap<String, crate::intermediate::ToplevelDefinition>) -> Result<Vec<crate::intermediate::constraints::Constraint>, crate::intermediate::error::GrammarError> {
+    use crate::intermediate::{types::*, *};
+    // a BOOLEAN carrying the constraints: ASN1Type::link_constraint_reference hands each of them to Constraint::link_cross_reference
+    let mut tld = ToplevelDefinition::Type(ToplevelTypeDefinition { comments: String::new(), tag: None, name: "Holder".into(), ty: ASN1Type::Boolean(Boolean { constraints }), parameterization: None, module_header: None });
+    tld.link_constraint_reference(tlds)?;
+    match tld { ToplevelDefinition::Type(ToplevelTypeDefinition { ty: ASN1Type::Boolean(b), .. }) => Ok(b.constraints), _ => unreachable!() }
+}
 pub fn hook_type_is_const(ty: &ASN1Type) -> bool { ty.is_const_type() }
 pub fn hook_type_has_reference(ty: &ASN1Type) -> bool { ty.contains_constraint_reference() }
 pub fn hook_is_elsewhere_declared(v: &ASN1Value) -> bool { v.is_elsewhere_declared() }
